@@ -227,6 +227,37 @@ func compareRead(s *fontSpec, e *expanded, g *cff.Font, fromLibrary bool) (strin
 				break
 			}
 		}
+		// the assignment is a function of the glyph, whatever was asked
+		// before: descending, then hopping between the ends, the middle and
+		// positions spread by a fixed stride
+		if n := len(e.fdsel); n > 0 && c.msg == "" {
+			order := make([]int, 0, 3*n+8)
+			for gid := n - 1; gid >= 0; gid-- {
+				order = append(order, gid)
+			}
+			order = append(order, n-1, 0, n-1, n/2, 0, n/3, n-1, 0)
+			stride := 7919 % n
+			if stride == 0 {
+				stride = 1
+			}
+			for k, gid := 0, n/2; k < 2*n && k < 4000; k++ {
+				order = append(order, gid)
+				if k%3 == 2 {
+					order = append(order, 0)
+				}
+				gid = (gid + stride) % n
+			}
+			for k, gid := range order {
+				if got := o.FDSelect(glyph.ID(gid)); got != e.fdsel[gid] {
+					prev := -1
+					if k > 0 {
+						prev = order[k-1]
+					}
+					c.fail("FDSelect(%d) asked after FDSelect(%d): want %d, got %d", gid, prev, e.fdsel[gid], got)
+					break
+				}
+			}
+		}
 	} else {
 		if o.ROS != nil || o.GIDToCID != nil || o.FontMatrices != nil {
 			c.fail("name-keyed font read back with ROS=%v GIDToCID=%d FontMatrices=%d", o.ROS, len(o.GIDToCID), len(o.FontMatrices))
